@@ -647,6 +647,9 @@ func checkC20(c *Ctx, r *Report) {
 
 	// ---- C20.f every configuration field is consumed
 	checkConfigLiveness(c, r, fields)
+
+	// every element filter in these packages is a reviewed one
+	ruleSkipInventory(c, r, "C20.d", loadSkipTable(c.VerifDir), 4, "core/arbitrators")
 }
 
 // octalOnly decides, on the regex syntax tree, that every match of the anchored pattern is
